@@ -135,19 +135,19 @@ def run(ctx):
                                    "msg": getattr(ctx, "harness_error", "")})
         return ctx.finish()
     env = {"HARNESS_LINE_TIMEOUT_S": "2"}
-    n = 4000 if quick else 200000
-    lines = biguint_cases.cases(ctx.rng, n, nat_oracle.C01_OPS + ["is_even"], maxlimbs=6 if quick else 64)
+    n = 4000 if quick else 30000
+    lines = biguint_cases.cases(ctx.rng, n, nat_oracle.C01_OPS + ["is_even"], maxlimbs=6 if quick else 16)
     ctx.diff_stream("biguint-ops", lines, h, "biguint", canon=nat_oracle.canon, oracle=nat_oracle.oracle,
                     nontrivial=lambda c, a: "L" in c, env=env,
                     what="BigUint add/sub/mul/divmod/cmp/gcd/pow/is_even on raw limb vectors through the hooks; "
                          "implementation vs Lean model (value + error class) and vs Python int arithmetic (spec)")
-    rl = rat_cases(ctx.rng, 3000 if quick else 150000, 3 if quick else 24)
+    rl = rat_cases(ctx.rng, 3000 if quick else 20000, 3 if quick else 10)
     ctx.diff_stream("bigrat-ops", rl, h, "bigrat", canon=rat_canon, oracle=rat_oracle,
                     nontrivial=lambda c, a: "L" in c, env=env,
                     what="BigRat add/sub/mul/div/neg/simplify/cmp/pow(integer exponents, incl. negative, unreduced and non-canonical) on raw "
                          "(sign, limbs, limbs) through the hooks; vs Lean model and vs Python Fraction arithmetic (spec)")
     # API level: random Arith trees through fend_core::evaluate
-    cases, meta = api_cases(ctx.rng, 1500 if quick else 60000, 5 if quick else 6)
+    cases, meta = api_cases(ctx.rng, 1500 if quick else 20000, 5 if quick else 6)
     import time
     t0 = time.time()
     outs = ctx.run_lines_robust(h, ["eval"], cases, env={"HARNESS_LINE_TIMEOUT_S": "20"})
